@@ -140,6 +140,9 @@ impl Generator
 		self.local_parameters.clear();
 		self.local_variables.clear();
 		self.local_labeled_blocks.clear();
+		// The cached declarations of snprintf, write and abort belong to the
+		// previous module; they have to be declared again in this one.
+		self.used_intrinsics.clear();
 
 		Ok(())
 	}
